@@ -31,9 +31,11 @@ def main():
         rc = mod.replay(ctx, data)
         sys.exit(rc)
     # 1. regenerate the data part of the model from the working tree, rebuild
-    from harness import gen_tables
+    from harness import gen_tables, gen_src
     gen_notes = gen_tables.generate(ctx)
     ctx.notes += gen_notes
+    # ... and the translation of the algorithmic methods (Gen/Src.v)
+    ctx.notes += gen_src.generate(ctx)
     ok, log = common.coq_make()
     if not ok:
         # a generated table no longer type-checks or a lemma over it no longer computes:
